@@ -5,6 +5,7 @@ from .. import core, gen, repair as RP, oracle as O, util as U
 
 PID = 'C08'
 HEAP = 10 ** 9
+_LAST = {}
 
 
 def lim_for(n, k, d):
@@ -48,6 +49,8 @@ def edit_case(r, k, G, acc, start, w, edits):
                 r.v(pre + ('edit-not-detected-although-not-a-walk' if not walk else 'detected-although-still-a-walk') + '|' + vtag, 'edit',
                     dict(case, indel=indel, chk=chk), 1 if not walk else 0, {'stats': core._j(stats), 'corrupted': s})
         if det == d:
+            _LAST['case'] = dict(RP.gcase(k, G) if len(G) <= 16 else {'k': k, 'graph': 'order-%d graph with %d arcs' % (k, len(RP.garcs(G)))}, start=start, walk=w, edits=[list(e[:3]) for e in edits], corrupted=s,
+                                 indel=indel, check=chk, detected=det, candidates=cands[:4], original_among_candidates=w in cands)
             r.ctr['detected_all_%d' % d] += 1
             r.out.add((k, kinds, len(cands) if len(cands) < 6 else 6))
         elif det < d:
@@ -129,8 +132,7 @@ def _w(chunk):
             explore(r, k, G, starts[:2] if quick else starts[:4], 7 * k + 4, 0, double=True, dev2=1 if quick else 2)
         r.ctr['graphs_k%d' % k] += 1
         r.maxi('item_wall_s_%s_k%d' % (what, k), _t.time() - _t0)
-    r.sample({'graph': core._j(item[2]) if item[0] == 'mask' else RP.gcase(item[1], item[2]), 't': item[3],
-              'what': 'walks of length 3k+3 and 4k+5 with bounded deviations from every start x all single edits at positions [k, n-2k)'}, 1)
+    r.sample(_LAST.get('case') or {'graph': core._j(item[2]) if item[0] == 'mask' else RP.gcase(item[1], item[2]), 't': item[3]}, 1)
     return r
 
 
